@@ -145,6 +145,7 @@ theorem xlsb_sheet_roundtrip (ctx : Ctx) (pre1 pre2 : List Seg) (dims : Bytes) (
     rw [Range.fromSparse_untouched [] r hr p q (fun c hc => nomatch hc)]
     rfl
   · obtain ⟨_, hsr, her, hmem, hec, hsc, _⟩ := Range.fromSparse_spec S hne r hr
+      (Range.rowsBetween_of_old S hne (sparsePreSorted_of_gridSorted S hS))
     have hlast := gridSorted_le_last S hne hS
     refine ⟨fun c hc => ⟨(hmem c hc).1, her ▸ hlast c hc, (hmem c hc).2.1, (hmem c hc).2.2⟩, fun _ => ⟨?_, ?_, ?_, ?_⟩, ?_⟩
     · exact ⟨S.head hne, List.head_mem hne, hsr.symm⟩
